@@ -381,9 +381,18 @@ package corerad
 
 //@ macro riMatch(x, y) = x.Prefix == y.Prefix && x.PrefixLength == y.PrefixLength
 //@ macro riProblem(p, x, y) = p.Field == "route_information_lifetime" && x.Preference == y.Preference && x.RouteLifetime != y.RouteLifetime
+//@ macro riDiff(x, y) = riMatch(x, y) && x.Preference == y.Preference && x.RouteLifetime != y.RouteLifetime
+//@ macro riWit(w, ps, x, y, i, j) = riDiff(x, y) ==> witOK(ps, w, "route_information_lifetime", i, j, cidrStrOf(x.Prefix, x.PrefixLength))
 //@ func checkRoutes
+//@   ghost local wit (Array Int (Array Int (Array Int Int)))
 //@   requires P1: optsOK(want) && optsOK(got)
 //@   assigns new heap(corerad.problems), new mem(corerad.problem), new mem(*ndp.RouteInformation)
+//@   at call push(pp, pfield, pdetails, pw, pg): ghost.wit = wit3Set(ghost.wit, pfield, rangeindex1 + 1, rangeindex2 + 1, len(star(pp)) - 1)
+//@   loop 1 invariant Q2 [C12]: forall(i, 0, rangeindex1 + 1, forall(j, 0, len(riB), riWit(ghost.wit, ps, riA[i], riB[j], i, j)))
+//@   loop 2 invariant Q6 [C12]: forall(i, 0, rangeindex1 + 1, forall(j, 0, len(riB), riWit(ghost.wit, ps, riA[i], riB[j], i, j)))
+//@   loop 2 invariant Q4 [C12]: forall(j, 0, rangeindex2 + 1, riWit(ghost.wit, ps, a, riB[j], rangeindex1 + 1, j))
+//@   ensures E3 [C12]: len(riA) > 0 && len(riB) > 0 ==> forall(i, 0, len(riA), forall(j, 0, len(riB), riDiff(riA[i], riB[j]) ==> hasProblem(result, "route_information_lifetime", cidrStrOf(riA[i].Prefix, riA[i].PrefixLength))))
+//@   ensures E4 [C12]: forall(i, 0, len(want), forall(j, 0, len(got), isType(want[i], "*ndp.RouteInformation") && isType(got[j], "*ndp.RouteInformation") && riDiff(as(want[i], "*ndp.RouteInformation"), as(got[j], "*ndp.RouteInformation")) ==> hasProblem(result, "route_information_lifetime", cidrStrOf(as(want[i], "*ndp.RouteInformation").Prefix, as(want[i], "*ndp.RouteInformation").PrefixLength))))
 //@   loop 1 invariant Q0 [C12]: 0 <= rangeindex1 + 1 && rangeindex1 + 1 <= len(riA) && forall(i, 0, len(riA), riA[i] != nil) && forall(j, 0, len(riB), riB[j] != nil)
 //@   loop 1 invariant Q1 [C12]: forall(k, 0, len(ps), exists(i, 0, len(riA), exists(j, 0, len(riB), riMatch(riA[i], riB[j]) && riProblem(ps[k], riA[i], riB[j]) && ps[k].Details == cidrStrOf(riA[i].Prefix, riA[i].PrefixLength))))
 //@   loop 2 invariant Q3 [C12]: 0 <= rangeindex2 + 1 && rangeindex2 + 1 <= len(riB) && rangeindex1 + 1 < len(riA) && a == riA[rangeindex1 + 1]
@@ -437,8 +446,20 @@ package corerad
 //@   opt safety [C12]
 //@   opt frame [C12]
 
+// verifyRAs is the concatenation of the seven checks, each run exactly once on
+// (ours, theirs) in that order: stage counts the checks, n sums their reports.
 //@ func verifyRAs
+//@   ghost local stage Int
+//@   ghost local n Int
 //@   requires P1: a != nil && b != nil && optsOK(a.Options) && optsOK(b.Options)
+//@   at call checkRAs(x, y) (r): assert A0 [C12]: ghost.stage == 0 && x == a && y == b ; ghost.stage = 1 ; ghost.n = len(r)
+//@   at call checkMTUs(w, g) (r): assert A1 [C12]: ghost.stage == 1 && w == a.Options && g == b.Options ; ghost.stage = 2 ; ghost.n = ghost.n + len(r)
+//@   at call checkPrefixes(w, g) (r): assert A2 [C12]: ghost.stage == 2 && w == a.Options && g == b.Options ; ghost.stage = 3 ; ghost.n = ghost.n + len(r)
+//@   at call checkRoutes(w, g) (r): assert A3 [C12]: ghost.stage == 3 && w == a.Options && g == b.Options ; ghost.stage = 4 ; ghost.n = ghost.n + len(r)
+//@   at call checkRDNSS(w, g) (r): assert A4 [C12]: ghost.stage == 4 && w == a.Options && g == b.Options ; ghost.stage = 5 ; ghost.n = ghost.n + len(r)
+//@   at call checkDNSSL(w, g) (r): assert A5 [C12]: ghost.stage == 5 && w == a.Options && g == b.Options ; ghost.stage = 6 ; ghost.n = ghost.n + len(r)
+//@   at call checkCaptivePortal(w, g) (r): assert A6 [C12]: ghost.stage == 6 && w == a.Options && g == b.Options ; ghost.stage = 7 ; ghost.n = ghost.n + len(r)
+//@   ensures E1 [C12]: ghost.stage == 7 && len(result) == ghost.n
 //@   assigns new heap(corerad.problems), new mem(corerad.problem), new mem(*ndp.DNSSearchList), new mem(*ndp.PrefixInformation), new mem(*ndp.RecursiveDNSServer), new mem(*ndp.RouteInformation)
 //@   opt safety [C12]
 //@   opt frame [C12]
